@@ -313,16 +313,32 @@ class Spinner:
             # Twisted's signal handlers.
             real_stop, self._reactor.stop = self._reactor.stop, self._fake_stop
 
+            # The callbacks we hang on the function's Deferred only count
+            # while *this* run is spinning.  The Deferred can outlive the run
+            # (timeout, interrupt) and fire during a later one.
+            this_run = self._current_run = object()
+
+            def only_this_run(callback):
+                def guarded(result):
+                    if self._current_run is this_run:
+                        return callback(result)
+                    return result
+
+                return guarded
+
             def run_function():
                 d = defer.maybeDeferred(function, *args, **kwargs)
-                d.addCallbacks(self._got_success, self._got_failure)
-                d.addBoth(self._stop_reactor)
+                d.addCallbacks(
+                    only_this_run(self._got_success), only_this_run(self._got_failure)
+                )
+                d.addBoth(only_this_run(self._stop_reactor))
 
             try:
                 self._reactor.callWhenRunning(run_function)
                 self._spinning = True
                 self._reactor.run()
             finally:
+                self._current_run = None
                 self._reactor.stop = real_stop
                 self._restore_signals()
             try:
